@@ -62,7 +62,7 @@ def evDev (out : List (OutEntry Nat Float)) (ev : Ev Nat Float) : Float :=
 it writes with the functional model's output table -/
 def streamCheck (cs : Comps Nat) (V : List Nat) (out : List (OutEntry Nat Float)) : String :=
   let mo := maxOrder cs
-  if mo < 2 then "stream shape=true consumed=true events=0 probs=0 maxdev=0 zip=true" else
+  if mo < 2 then "stream shape=true consumed=true events=0 probs=0 maxdev=0 zip=true p1shape=true p1ok=true" else
   let streams := (List.range (mo - 1)).map (fun j => sortedStream cs (j + 2))
   let X := sortedX cs
   let Y := sortedY cs
@@ -72,8 +72,15 @@ def streamCheck (cs : Comps Nat) (V : List Nat) (out : List (OutEntry Nat Float)
   let consumed := r.1.all (·.isEmpty)
   let nprob := (r.2.filter (fun e => match e with | Ev.prob .. => true | _ => false)).length
   let dev := (r.2.map (evDev out)).foldl (fun a b => if b > a then b else a) 0.0
+  -- pass 1: HandleSuffix on the SuffixOrder-sorted merged n-gram streams
+  let p1streams := (List.range mo).map (fun j => p1Stream cs (j + 1))
+  let Yg := sortedYg cs
+  let p1shape := decide (levelsE (fun _ => [0]) Yg (mo - 1) (Yg []) [] = p1streams)
+  let r1 := handleSuffix cs (2 * (unionGrams cs).length + 10) p1streams [] (mergeFb cs [])
+  let p1ok := r1.1.all (·.isEmpty) && r1.2.all (fun rec => decide (rec = p1Rec cs rec.gram)) &&
+    decide (r1.2.length = (unionGrams cs).length)
   let zip := (List.range (mo - 1)).all (fun j => decide (backoffStream cs (j + 1) = probStream3 cs (j + 1)))
-  s!"stream shape={shape} consumed={consumed} events={r.2.length} probs={nprob} maxdev={fbits dev} zip={zip}"
+  s!"stream shape={shape} consumed={consumed} events={r.2.length} probs={nprob} maxdev={fbits dev} zip={zip} p1shape={p1shape} p1ok={p1ok}"
 
 def step (s : St) (line : String) : St × String :=
   match words line with
